@@ -32,7 +32,8 @@ def lib_defaults():
     from linear_operator import settings as S
     return {
         "mcs": int(S.max_cholesky_size.value()), "log_prob": bool(S.fast_computations.log_prob.on()),
-        "solves": bool(S.fast_computations.solves.on()), "nts": int(S.num_trace_samples.value()),
+        "solves": bool(S.fast_computations.solves.on()), "crd": bool(S.fast_computations.covar_root_decomposition.on()),
+        "nts": int(S.num_trace_samples.value()),
         "lq": int(S.max_lanczos_quadrature_iterations.value()), "cg": int(S.max_cg_iterations.value()),
         "cgtol": float(S.cg_tolerance.value()), "tbs": bool(S.terminate_cg_by_size.on()),
         "skip": bool(S.skip_logdet_forward.on()), "mps": int(S.max_preconditioner_size.value()),
@@ -49,8 +50,9 @@ class Ctxs:
         d = defaults
         if st["mcs"] != d["mcs"]:
             self.cm.append(S.max_cholesky_size(st["mcs"]))
-        if st["log_prob"] != d["log_prob"] or st["solves"] != d["solves"]:
-            self.cm.append(S.fast_computations(log_prob=st["log_prob"], solves=st["solves"]))
+        if st["log_prob"] != d["log_prob"] or st["solves"] != d["solves"] or st.get("crd", d["crd"]) != d["crd"]:
+            self.cm.append(S.fast_computations(covar_root_decomposition=st.get("crd", d["crd"]), log_prob=st["log_prob"],
+                                               solves=st["solves"]))
         if st["nts"] != d["nts"]:
             self.cm.append(S.num_trace_samples(st["nts"]))
         if st["lq"] != d["lq"]:
@@ -151,15 +153,19 @@ class CGRecorder:
 def run_impl(case, defaults):
     """returns obs dict: {"raise": .., "msg": ..} or {"iq": tensor/None, "ld": tensor/None, "probes", "pc"}"""
     spec = case["spec"]
-    op = ops.build(spec, grad=True)
+    gmode = case.get("grad", "on")       # "on": leaves and rhs require grad; "off": nothing does; "no_grad": torch.no_grad()
+    op = ops.build(spec, grad=(gmode == "on"))
     R = case["R"]
-    Rg = None if R is None else R.clone().requires_grad_(True)
+    Rg = None if R is None else (R.clone().requires_grad_(True) if gmode == "on" else R.clone())
+    import contextlib
+    import linear_operator as LO
+    fn = case.get("functional", False)   # the functional forms linear_operator.inv_quad / inv_quad_logdet / logdet
     torch.manual_seed(case["tseed"])
     st = case["st"]
     croot = None
     with warnings.catch_warnings():
         warnings.simplefilter("ignore")
-        with Ctxs(st, defaults), CGRecorder() as rec:
+        with Ctxs(st, defaults), CGRecorder() as rec, (torch.no_grad() if gmode == "no_grad" else contextlib.nullcontext()):
             try:
                 if case.get("warm"):
                     try:        # fill the root_decomposition cache first (C12: must be transparent); failures of
@@ -168,13 +174,15 @@ def run_impl(case, defaults):
                         pass
                 croot = cached_root_of(op, spec)
                 if case["api"] == "iql":
-                    iq, ld = op.inv_quad_logdet(Rg, logdet=case["logdet"], reduce_inv_quad=case["reduce"])
+                    iq, ld = (LO.inv_quad_logdet(op, Rg, logdet=case["logdet"], reduce_inv_quad=case["reduce"]) if fn else
+                              op.inv_quad_logdet(Rg, logdet=case["logdet"], reduce_inv_quad=case["reduce"]))
                 elif case["api"] == "logdet":
-                    iq, ld = "absent", op.logdet()
+                    iq, ld = "absent", (LO.logdet(op) if fn and hasattr(LO, "logdet") else op.logdet())
                 elif case["api"] == "torch.logdet":
                     iq, ld = "absent", torch.logdet(op)
                 else:   # inv_quad
-                    iq, ld = op.inv_quad(Rg, reduce_inv_quad=case["reduce"]), "absent"
+                    iq, ld = (LO.inv_quad(op, Rg, reduce_inv_quad=case["reduce"]) if fn else
+                              op.inv_quad(Rg, reduce_inv_quad=case["reduce"])), "absent"
             except Exception as ex:
                 return {"raise": type(ex).__name__, "msg": str(ex)[:160], "croot": croot}
     node = None
@@ -576,6 +584,33 @@ def variants_mb(quick):
     return V
 
 
+GR_PREFIX = "GR "
+
+
+def variants_grad(quick):
+    """small operators (n = 4, 6, 9) for the requires_grad dimension of the stochastic path: the forward value must not depend on
+    whether any tensor requires grad / torch.no_grad() is active"""
+    V = []
+    for n in (4, 6, 9):
+        for b in ([], [2]):
+            V.append((GR_PREFIX + "Dense n=%d b=%s" % (n, b), lambda r, n=n, b=b: {"k": "Dense", "A": ops.spd(r, b, n, shift=0.25)}))
+    # sizes at which a tolerance-terminated CG solve is visibly inexact (beyond linear_cg's 10 mandatory iterations): the
+    # stand-alone entry points must take the Cholesky solve there whenever their OWN selector says so
+    def spread(r, n, b):       # eigenvalues log-spaced in [0.05, 5] (kappa = 100): CG needs ~n iterations
+        Q = torch.linalg.qr(ops.rnd(r, *b, n, n))[0]
+        lam = torch.logspace(math.log10(0.05), math.log10(5.0), n, dtype=F64)
+        A = Q @ torch.diag_embed(lam.expand(*b, n)) @ Q.mT
+        return 0.5 * (A + A.mT)
+    for (n, b) in ((16, []), (24, []), (16, [2])):
+        V.append((GR_PREFIX + "SA Dense-spread n=%d b=%s" % (n, b), lambda r, n=n, b=b: {"k": "Dense", "A": spread(r, n, b), "ill": True}))
+    return V
+
+
+# the stand-alone entry points under every combination of the three fast_computations flags, above / below max_cholesky_size
+SA_TABLE = [("SA crd=%d lp=%d sv=%d %s" % (crd, lp, sv, "mcs0" if above else "mcs-def"),
+             dict({"crd": bool(crd), "log_prob": bool(lp), "solves": bool(sv), "nts": 2}, **({"mcs": 0} if above else {})))
+            for crd in (1, 0) for lp in (1, 0) for sv in (1, 0) for above in (True, False)]
+
 HET_PREFIX = "HET "
 PC_PREFIX = "PC "
 
@@ -812,7 +847,7 @@ def variants(quick):
                             return {"k": "OB", "e": e}
                     return {"k": "Dense", "A": ops.spd(r, b, m)}
                 add("OB %s b=%s m=%d" % (cls, b, m), mk)
-    return V + variants_mb(quick) + variants_ori(quick) + variants_het(quick) + variants_cache(quick)
+    return V + variants_mb(quick) + variants_ori(quick) + variants_het(quick) + variants_cache(quick) + variants_grad(quick)
 
 
 def profiles(n, quick, leaf):
@@ -882,6 +917,10 @@ def gen_cases(ctx):
                 core = [c for c in cells if c[1] in want and c[5] and c[4] == ("mat" if (vi + c[0]) % 2 else "none")
                         and (c[4] == "none" or c[6] == ((vi + c[0]) % 4 < 2))]
                 rot = rot[:2]
+            if name.startswith(GR_PREFIX) and "SA " not in name:
+                want = ("mcs0", "mcs0-nts1", "mcs0-lq=n", "mcs0-cg=n+2")
+                core = [c for c in cells if c[1] in want and c[5] and (c[4] == "none" or (c[4] == "mat" and c[6]))]
+                rot = rot[:1]
             if name.startswith(PC_PREFIX):
                 # every route (Cholesky by size, by the log_prob flag, at the boundary; CG) with and without rhs
                 want = ("default", "mcs0", "mcs0-logprob-off", "mcs=n", "mcs=n-1")
@@ -917,9 +956,13 @@ def gen_cases(ctx):
                 R = ops.rnd(rng, *rb, n, t)
             else:
                 R = ops.rnd(rng, *batch, n, t)
-            cases.append({"name": name, "prof": pname, "spec": spec, "st": st, "rhs": rhs, "R": R,
-                          "logdet": ld, "reduce": red, "api": "iql", "tseed": rng.getrandbits(31),
-                          "warm": (pname == "default" and fi % 5 == 0)})
+            gmodes = ("on", "off", "no_grad") if name.startswith(GR_PREFIX) and pname != "default" and "SA " not in name else \
+                (("on", "on", "off", "on", "no_grad")[(vi + pi + fi) % 5],)
+            for gi, gm in enumerate(gmodes):
+                cases.append({"name": name, "prof": pname, "spec": spec, "st": st, "rhs": rhs, "R": R,
+                              "logdet": ld, "reduce": red, "api": "iql", "tseed": rng.getrandbits(31),
+                              "warm": (pname == "default" and fi % 5 == 0), "grad": gm,
+                              "functional": (vi + fi + gi) % 7 == 0})
         # the other public entry points (Triangular operators are not symmetric: only their override applies)
         apis = ("logdet", "torch.logdet") if leaf["k"] == "Tri" else ("logdet", "torch.logdet", "inv_quad")
         api_cells = [(api, pname, ov, red) for api in apis
@@ -933,6 +976,24 @@ def gen_cases(ctx):
         if quick and name.startswith(MB_PREFIX) and "inv_quad" in apis and leaf["k"] != "Ident" and max(batch + [1]) > 1:
             # LinearOperator.inv_quad documents broadcasting of the rhs batch: one broadcast call per multi-batch variant
             api_cells.append(("inv_quad-b", "default" if vi % 2 else "mcs0", {} if vi % 2 else {"mcs": 0, "nts": 2}, vi % 4 < 2))
+        sa_apis = [a for a in apis for _ in (0, 1)]          # (api, functional form?)
+        sa_all = [(api, fnl, nm, ov, red) for (nm, ov) in SA_TABLE for ai, api in enumerate(apis) for fnl in (False, True)
+                  for red in ((True, False) if api == "inv_quad" else (True,))]
+        sa_pick = [sa_all[(vi * 13 + j * 7) % len(sa_all)] for j in range(1 if quick else 12)]   # rotating slice of the table
+        if name.startswith(GR_PREFIX):
+            sa_pick = [c for c in sa_all if c[4] and not c[1]]      # the whole flag table on the small operators
+            if "SA " in name:
+                sa_pick = [c for c in sa_all if c[0] == "inv_quad" and (c[4] or c[1])]
+        for (api, fnl, nm, ov, red) in sa_pick:
+            st = dict(defaults)
+            st.update(ov)
+            for gm in (("on", "off", "no_grad") if name.startswith(GR_PREFIX) and "SA " not in name and api != "inv_quad" and ov.get("mcs") == 0
+                       else (("on", "off", "no_grad")[(vi + len(cases)) % 3],)):
+                cases.append({"name": name, "prof": nm, "spec": spec, "st": st,
+                              "rhs": "mat" if api == "inv_quad" else "none",
+                              "R": ops.rnd(rng, *batch, n, 2) if api == "inv_quad" else None,
+                              "logdet": api != "inv_quad", "reduce": red, "api": api, "tseed": rng.getrandbits(31),
+                              "warm": False, "grad": gm, "functional": fnl})
         if name.startswith(MB_PREFIX) and "inv_quad" in apis and leaf["k"] != "Ident" and (not quick or "ORI" in name or vi % 3 == 0):
             api_cells.append(("inv_quad-x", "default" if vi % 2 == 0 else "mcs0", {} if vi % 2 == 0 else {"mcs": 0, "nts": 2}, vi % 4 >= 2))
             if "ORI" in name:      # both reduce settings and both routes for the orientation family
@@ -1028,6 +1089,8 @@ def model_comparable(case, obs):
         return None          # a refused broadcast rhs: nothing to compare (the model expands the rhs, by meaning)
     if case["rhs"] == "xmat":
         return None          # output batch larger than the operator's: direct predicate only
+    if spec_leaf(case["spec"]).get("ill") and not (chol_route(st, n) or not st["solves"]):
+        return None          # kappa = 100 on the CG route: float trajectories of model and implementation need not agree
     if isinstance(obs.get("croot"), str):
         return None          # an UPPER triangular cached root (not modelled; does not occur in the grid)
     if "raise" in obs:
@@ -1156,7 +1219,8 @@ def run(ctx):
         dist[leafd.split(" ")[0]] = dist.get(leafd.split(" ")[0], 0) + 1
         if "raise" in obs:
             continue
-        keyset.add((case["name"], case["prof"], case["rhs"], case["logdet"], case["reduce"], case["api"]))
+        keyset.add((case["name"], case["prof"], case["rhs"], case["logdet"], case["reduce"], case["api"], case.get("grad", "on"),
+                    bool(case.get("functional"))))
     ctx.coverage.update({
         "trusted_base": common.COQ_TRUSTED + [
             "coq/C05/Model.v, ModelCG.v are hand transcriptions (tied by correspondence only, no translator)",
